@@ -240,6 +240,18 @@ FAMILIES = {
     "link_label_balanced_brackets": (lambda n: "[" + "[" * (n // 2) + "a" + "]" * (n // 2) + "](/url)\n", ["link"], []),
     "link_label_balanced_brackets_ref": (lambda n: "[r]: /u\n\n[t " + "[" * (n // 2) + "a" + "]" * (n // 2) + " t][r]\n", ["link"], []),
     "image_label_balanced_brackets": (lambda n: "![" + "[" * (n // 2) + "a" + "]" * (n // 2) + "](/s)\n", ["image"], []),
+    # an open bracket first: everything after it is scanned in validation mode (skipToken) before it is tokenized for real
+    "bracket_then_escaped_backticks": (lambda n: "[" + "\\``" * (n // 3), ["skipToken"], []),
+    "bracket_then_backtick_pairs": (lambda n: "[" + "`a `` " * (n // 6), ["skipToken"], []),
+    "bracket_then_tilde_run": (lambda n: "[" + "~" * n, ["skipToken"], []),
+    "bracket_then_star_run": (lambda n: "[" + "*" * n, ["skipToken"], []),
+    "bracket_then_underscore_words": (lambda n: "[" + "_a " * (n // 3), ["skipToken"], []),
+    "bracket_then_lt_run": (lambda n: "[" + "<" * n, ["skipToken"], []),
+    "bracket_then_amp_run": (lambda n: "[" + "&a" * (n // 2), ["skipToken"], []),
+    "bracket_then_bang_brackets": (lambda n: "[" + "![" * (n // 2), ["skipToken"], []),
+    "bracket_then_backslashes": (lambda n: "[" + "\\" * n, ["skipToken"], []),
+    "bracket_then_autolinks": (lambda n: "[" + "<a:b> " * (n // 6), ["skipToken"], []),
+    "image_bracket_then_tilde_run": (lambda n: "![" + "~" * n, ["skipToken"], []),
     # many separate blocks that each begin with an unclosed bracket (every one is offered to the reference-definition rule)
     "open_bracket_paragraphs": (rep("[a\n\n"), ["reference"], []),
     "open_bracket_items": (rep("- [a\n"), ["reference"], []),
